@@ -59,12 +59,12 @@ def shrink_candidates(c):
 def explain(c, impl, verd):
     return ("case = comp <A> S <n> <rank of symbol 0..n-1>; impl = C <Complement result> I <operand afterwards>; gate complement = over Sigma every tree is "
             "accepted by A or C, by no means both, and C accepts only trees over Sigma (C06_gate)")
-LEVEL_TEXT = ("Coq theorems (all automata and alphabets, no bounds): the boolean gate evaluated on libvata's result C decides exactly the property — every tree "
+LEVEL_TEXT = ("Coq theorems (all automata and alphabets, no bounds): (A) the choice-function construction of the code, as a top-down run relation over macro-states, is exact: a macro-state P accepts t iff t is over Sigma and no state of P accepts t in A (macro_spec, by induction on trees with a finite-choice lemma), hence from the set of final states exactly the rejected trees over Sigma; (gate) the boolean gate evaluated on libvata's result C decides exactly the property — every tree "
               "over Sigma is accepted by exactly one of A and C, and C accepts no tree outside Sigma — using the verified inclusion decider, the "
               "verified intersection gate and a universal automaton proved to accept exactly T(Sigma). Tie to the C++: Complement of libvata rebuilt from "
               "/repo, each case under a fresh on-the-fly alphabet (with unused symbols, nullary-only alphabets, empty and universal languages), judged by "
               "the extracted gate.")
-LEVEL_NOTE = ("The choice-function construction is not yet modelled algorithmically: the theorem is about the gate (the property itself), the tie is semantic on "
+LEVEL_NOTE = ("The construction is modelled relationally (crun); the executable numbering of macro-states, the antichain refinement of child sets and the final trimming are not modelled; the tie is semantic (language level) on "
               "generated inputs. Trusted: Coq kernel, ExtrOcamlBasic extraction, OCaml/C++ glue, generators. No axioms.")
 TECHNIQUE = "Coq-verified complement gate (universality + disjointness + alphabet) applied to libvata's result; correspondence on generated automata/alphabets"
 DESIGN_REF = "DESIGN.md 5/C06"
